@@ -18,6 +18,7 @@
 #include "mbgen.h"
 #include "consgen.h"
 #include "refdyn.h"
+#include <malloc.h>
 using namespace SimTK;
 
 namespace {
@@ -56,6 +57,11 @@ void jacobiEig(Matrix A, std::vector<Real>& ev, Matrix& Vec) {   // symmetric A 
     ev.resize(n); for (int i = 0; i < n; ++i) ev[i] = A(i, i);
 }
 
+// While alive, glibc fills every malloc'ed block with 0xFF bytes (quiet NaN for doubles), so that a result vector that is allocated
+// but never written shows up deterministically as NaN instead of whatever the heap happened to contain (M_PERTURB: allocated bytes are
+// set to the complement of the low byte of the value; 0x100 is non-zero with low byte 0).
+struct HeapPoison { HeapPoison() { mallopt(M_PERTURB, 0x100); } ~HeapPoison() { mallopt(M_PERTURB, 0); } };
+
 struct Plan {       // everything decoded from the tape besides the model
     uint64_t seed = 1; double t0 = 0.7, fMag = 1, FMag = 1; int redundancy = 0; bool fitted = false, project = false, gravity = false; uint32_t routeBits = 0;
 };
@@ -86,7 +92,8 @@ void judge(pbt::Ctx& ctx, const consgen::Model& cm, const Plan& pl, bool applyKn
     for (int i = 0; i < nc; ++i) if (!ctx.check(m.cons[i].isDisabled(s) == cm.cons[i].disabled, "constraint " + I(i) + " isDisabled() does not report the status set through " + ((pl.routeBits >> i & 1u) ? "the State" : "setDisabledByDefault"))) return;
     if (pl.project) {
         try { sys.project(s, 1e-9); ctx.label("state:projected"); } catch (const std::exception&) { ctx.label("state:projection-failed-using-unprojected"); m.setState(cm.spec); }
-        if (!consgen::inDomain(cm.spec, m, s) || !(maxAbsV(s.getU()) <= 20)) { ctx.label("state:projected-outside-domain-using-unprojected"); m.setState(cm.spec); }
+        bool finite = true; for (int i = 0; i < s.getNU(); ++i) if (!std::isfinite(s.getU()[i])) finite = false;    // (project() can come back "successful" with NaN speeds: C09's c09-projectu-divergence-reported-as-success)
+        if (!finite || !consgen::inDomain(cm.spec, m, s) || !(maxAbsV(s.getU()) <= 20)) { ctx.label("state:projected-outside-domain-using-unprojected"); m.setState(cm.spec); }
     }
     const Vector q0 = s.getQ(), u0 = s.getU();
     sys.realize(s, Stage::Velocity);
@@ -96,7 +103,17 @@ void judge(pbt::Ctx& ctx, const consgen::Model& cm, const Plan& pl, bool applyKn
     for (int i = 0; i < nu; ++i) f[i] = pl.fMag * rng.next();
     for (int b = 0; b < NB; ++b) F[b] = pl.FMag * SpatialVec(Vec3(rng.next(), rng.next(), rng.next()), Vec3(rng.next(), rng.next(), rng.next()));
     A.disc.setAllMobilityForces(s, f); A.disc.setAllBodyForces(s, F);
-    try { sys.realize(s, Stage::Acceleration); } catch (const std::exception& e) { ctx.reject("realize-acceleration-threw"); return; }
+    sys.realize(s, Stage::Dynamics);
+    bool zeroW = false;
+    {   // known finding: FactorQTZ::solve leaves its result unset for a rank-0 (all-zero) matrix, so when the projected inverse mass matrix
+        // G*M^-1*G' the library factors is exactly zero the multipliers are uninitialised memory (and udot = NaN if that memory happens to
+        // hold NaN/Inf). Site predicate: calcProjectedMInv() == 0 exactly (e.g. constraints between two bodies welded to each other).
+        Matrix W0; matter.calcProjectedMInv(s, W0);
+        zeroW = W0.nrow() > 0 && refdyn::maxAbs(W0) == 0;
+        if (zeroW && known("c08-qtz-rank0-multipliers-uninitialized")) { ctx.label("excluded:c08-qtz-rank0-multipliers-uninitialized"); ctx.label("set:zero-GMInvGt"); return; }
+        if (zeroW) ctx.label("set:zero-GMInvGt");
+    }
+    try { HeapPoison poison; sys.realize(s, Stage::Acceleration); } catch (const std::exception& e) { ctx.reject("realize-acceleration-threw"); return; }
     const Vector udot = s.getUDot(), lam = s.getMultipliers(), udoterr = s.getUDotErr();
     const Vector fApp = sys.getMobilityForces(s, Stage::Dynamics); const Vector_<SpatialVec> FApp = sys.getRigidBodyForces(s, Stage::Dynamics);
     if (!pl.gravity) { for (int i = 0; i < nu; ++i) if (!ctx.check(fApp[i] == f[i], "applied mobility forces differ from the ones set")) return; }
@@ -106,6 +123,7 @@ void judge(pbt::Ctx& ctx, const consgen::Model& cm, const Plan& pl, bool applyKn
     const int mt = mp + mv + ma;
     if (!ctx.check(lam.size() == mt && udoterr.size() == mt && udot.size() == nu, "getMultipliers/getUDotErr/getUDot sizes " + I(lam.size()) + "/" + I(udoterr.size()) + "/" + I(udot.size()) + ", expected " + I(mt) + "/" + I(mt) + "/" + I(nu))) return;
     for (int i = 0; i < nc; ++i) if (cm.cons[i].disabled && !ctx.check(rows[i].mp + rows[i].mv + rows[i].ma == 0, "disabled constraint " + I(i) + " still owns constraint equations")) return;
+    for (int i = 0; i < mt; ++i) if (!std::isfinite(lam[i])) { ctx.fail("multiplier " + I(i) + " is not finite (" + S(lam[i]) + ")"); return; }
     for (int i = 0; i < nu; ++i) if (!std::isfinite(udot[i])) { ctx.fail("udot[" + I(i) + "] is not finite"); return; }
 
     // ---- reference pieces
@@ -137,11 +155,10 @@ void judge(pbt::Ctx& ctx, const consgen::Model& cm, const Plan& pl, bool applyKn
             else if (!deficient) cls = FullRank;
             else {   // is the bias inside range(G) = range(W)?
                 Real out = 0; for (int k = 0; k < mt; ++k) if (ev[k] / lmax < 1e-13) { Real c = 0; for (int i = 0; i < mt; ++i) c += Q(i, k) * aerr0[i]; out = std::max(out, std::abs(c)); }
-                cls = out <= 1e-9 * (1 + maxAbsV(aerr0)) ? DeficientConsistent : Inconsistent;
+                cls = out <= 1e-12 * (1 + maxAbsV(aerr0)) ? DeficientConsistent : Inconsistent;    // (100x below the udoterr tolerance: a slightly inconsistent set leaves exactly this residual)
             }
         }
     }
-    if (getenv("C08_DBG")) std::cerr << "DBG cls=" << cls << " cond=" << cond << " kappaM=" << kappaM << " lam=" << lam << " udot=" << udot << " udoterr=" << udoterr << " maxG=" << (mt ? refdyn::maxAbs(G) : 0.0) << " aerr0=" << aerr0 << " Gtl=" << Gtl << " fApp=" << fApp << " G=" << G << "\n";
     static const char* clsName[] = {"no-enabled-equations", "full-rank", "rank-deficient-consistent", "inconsistent", "ill-conditioned", "null-G"};
     ctx.label(std::string("set:") + clsName[cls]);
     {   bool diffClass = false, anyDisabled = nEnabled < nc; int first = -1; for (int i = 0; i < nc; ++i) if (!cm.cons[i].disabled) { int c = consgen::typeInfo(cm.cons[i].type).cls; if (first < 0) first = c; else if (c != first) diffClass = true; }
@@ -150,11 +167,12 @@ void judge(pbt::Ctx& ctx, const consgen::Model& cm, const Plan& pl, bool applyKn
 
     // known finding: every enabled equation has a null row of G (constraints between relatively immobile bodies): the
     // relative rank threshold of the multiplier solve sees pure noise as full rank.
-    const bool blowup = cls == NullG && known("c08-null-constraint-multiplier-blowup");
+    const bool nullSet = cls == NullG;
+    const bool blowup = cls == NullG && !zeroW && known("c08-null-constraint-multiplier-blowup");
     if (blowup) ctx.label("excluded:c08-null-constraint-multiplier-blowup");
 
     // ---- a set whose G and bias vanish imposes nothing: its constraint force G'*lambda must vanish whatever lambda is
-    if (cls == NullG && !blowup) {
+    if (nullSet && !blowup) {
         Real fsc = 1 + maxAbsV(fApp); for (int b = 0; b < NB; ++b) fsc = std::max(fsc, FApp[b][0].norm() + FApp[b][1].norm());
         Vector udFree; Vector_<SpatialVec> Afree; matter.calcAccelerationIgnoringConstraints(s, fApp, FApp, udFree, Afree);
         for (int i = 0; i < nu; ++i) if (!within("null-G-udot", std::abs(udot[i] - udFree[i]), 1e-8 * kappaM * (1 + maxAbsV(udFree)))) { ctx.fail("every enabled constraint row of G is null (max|G| = " + S(refdyn::maxAbs(G)) + ", max|bias| = " + S(maxAbsV(aerr0)) + ") but udot[" + I(i) + "] = " + S(udot[i]) + " differs from the unconstrained acceleration " + S(udFree[i]) + " (max|lambda| = " + S(lamMax) + ")"); return; }
@@ -170,7 +188,7 @@ void judge(pbt::Ctx& ctx, const consgen::Model& cm, const Plan& pl, bool applyKn
         std::vector<SpatialVec> Aref = refdyn::referenceAccelerations(sys, matter, s, udot, hFD);
         Vector rref = refdyn::referenceResidual(J, si, V, Aref, FApp, fApp);
         const Real sc = forceScale(Aref), UU = 1 + maxAbsV(u0) * maxAbsV(u0);
-        for (int i = 0; i < nu; ++i) if (!within("newton-kane", std::abs(rref[i] + Gtl[i]), 1e-7 * sc * UU)) { ctx.fail("M_ref*udot + inertial_ref - f_applied + G'*lambda = " + S(rref[i] + Gtl[i]) + " at mobility " + I(i) + " (scale " + S(sc) + ", set " + clsName[cls] + ", max|lambda| " + S(lamMax) + ")"); return; }
+        for (int i = 0; i < nu; ++i) if (!within("newton-kane", std::abs(rref[i] + Gtl[i]), 3e-7 * sc * UU)) { ctx.fail("M_ref*udot + inertial_ref - f_applied + G'*lambda = " + S(rref[i] + Gtl[i]) + " at mobility " + I(i) + " (scale " + S(sc) + ", set " + clsName[cls] + ", max|lambda| " + S(lamMax) + ")"); return; }
         Vector res; matter.calcResidualForce(s, fApp, FApp, udot, lam, res);
         for (int i = 0; i < nu; ++i) if (!within("calcResidualForce", std::abs(res[i]), 1e4 * Eps * nu * kappaM * sc)) { ctx.fail("calcResidualForce(f, F, udot, lambda)[" + I(i) + "] = " + S(res[i]) + " (scale " + S(sc) + ", set " + clsName[cls] + ")"); return; }
         // body accelerations in the state are the ones of udot
@@ -184,8 +202,7 @@ void judge(pbt::Ctx& ctx, const consgen::Model& cm, const Plan& pl, bool applyKn
         for (int i = 0; i < mt; ++i) if (!within("udoterr=aerr(udot)", std::abs(ae[i] - udoterr[i]), 1e-10 * asc)) { ctx.fail("getUDotErr[" + I(i) + "]=" + S(udoterr[i]) + " != calcConstraintAccelerationErrors(getUDot)=" + S(ae[i])); return; }
         if ((cls == FullRank || cls == DeficientConsistent) && !blowup) {
             ctx.label(cls == FullRank ? "demanded:udoterr=0/full-rank" : "demanded:udoterr=0/redundant-consistent");
-            for (int i = 0; i < mt; ++i) { if (getenv("C08_DBG2") && std::abs(udoterr[i]) > 0.05 * (1e-10 + 1e-13 * cond * kappaM) * (asc + wl)) std::cerr << "DBG2 udoterr " << udoterr[i] << " cond " << cond << " kappaM " << kappaM << " asc " << asc << " cls " << cls << " lamMax " << lamMax << "\n";
-            if (!within("udoterr=0", std::abs(udoterr[i]), (1e-10 + 1e-13 * cond * kappaM) * (asc + wl))) {
+            for (int i = 0; i < mt; ++i) { if (!within("udoterr=0", std::abs(udoterr[i]), (1e-10 + 1e-13 * cond * kappaM) * (asc + wl))) {
                 int ow = -1; for (int c = 0; c < nc; ++c) { const consgen::Rows& r = rows[c]; if ((r.mp && i >= r.px0 && i < r.px0 + r.mp) || (r.mv && i >= r.vx0 && i < r.vx0 + r.mv) || (r.ma && i >= r.ax0 && i < r.ax0 + r.ma)) ow = c; }
                 ctx.fail("consistent constraint set (" + std::string(clsName[cls]) + ", cond(G M^-1 G') = " + S(cond) + ") but getUDotErr[" + I(i) + "] = " + S(udoterr[i]) + " (constraint " + I(ow) + (ow >= 0 ? std::string(" ") + consgen::consName(cm.cons[ow].type) : "") + ", scale " + S(asc) + ")"); return; } }
         }
@@ -229,9 +246,6 @@ void judge(pbt::Ctx& ctx, const consgen::Model& cm, const Plan& pl, bool applyKn
             for (int b = 0; b < NB; ++b) if (!within("twin-reactions", (R1[b][0] - R2[b][0]).norm() + (R1[b][1] - R2[b][1]).norm(), (1e-9 + 1e-14 * cond * kappaM) * rsc * kappaM)) { ctx.fail("mobilizer reaction of body " + I(b) + " differs between the model with disabled constraints and the model without them by " + S((R1[b][0] - R2[b][0]).norm() + (R1[b][1] - R2[b][1]).norm())); return; }
         }
     }
-    if (blowup) {   // the excluded site must really be the listed defect: otherwise it is judged like everything else (never reached when not listed)
-        (void)0;
-    }
 }
 
 // ---- redundancy classes by construction
@@ -268,28 +282,50 @@ void property(const pbt::Tape& t, pbt::Ctx& ctx) {
     judge(ctx, cm, pl, true);
 }
 
-// ---- directed reproducer: a Rod from the centre of a Gimbal joint on Ground to a station of the gimballed body: the distance cannot
+// ---- directed reproducer: a Rod from the centre of a Pin joint on Ground to a station of the pinned body: the distance cannot
 // change whatever the coordinates do, so the row of G and the bias are zero up to rounding noise
 void directedNull(pbt::Ctx& ctx) {
-    consgen::Model cm; mbgen::BodySpec a; a.parent = 0; a.type = mbgen::Gimbal; a.q[0] = 0.3; a.q[1] = 0.4; a.q[2] = 0.5; a.u[0] = 0.5; a.u[1] = -0.7; a.u[2] = -1; cm.spec.bodies.push_back(a);
+    consgen::Model cm; mbgen::BodySpec a; a.parent = 0; a.type = mbgen::Pin; a.q[0] = -2.9285273104906082; a.u[0] = -2; cm.spec.bodies.push_back(a);
     consgen::ConsSpec c; c.type = consgen::Rod; c.b1 = 0; c.b2 = 1; c.p1 = Vec3(0); c.p2 = Vec3(.3, .5, .2); c.length = 0.3; cm.cons.push_back(c);
-    Plan pl; pl.seed = 3; pl.fMag = 1; pl.FMag = 1;
+    Plan pl; pl.seed = 0; pl.fMag = 1; pl.FMag = 1;
+    if (ctx.wantDesc) cm.describe(ctx.desc);
+    judge(ctx, cm, pl, false);
+}
+
+// ---- directed reproducer: two PointInPlane constraints between a free body and a body welded to it: G is exactly zero
+void directedZero(pbt::Ctx& ctx) {
+    consgen::Model cm; mbgen::BodySpec a, b; a.parent = 0; a.type = mbgen::Free; a.q[0] = 1; a.q[4] = 0.3; a.u[0] = 0.4; a.u[1] = -0.3; a.u[2] = 0.2; a.u[3] = 0.1; a.com = Vec3(.1, .2, .3);
+    b.parent = 1; b.type = mbgen::Weld; b.X_PF = Transform(Rotation(0.3, XAxis), Vec3(.5, 0, 0)); b.inKind = 2; b.com = Vec3(.2, 0, .1); cm.spec.bodies.push_back(a); cm.spec.bodies.push_back(b);
+    consgen::ConsSpec c; c.type = consgen::PointInPlane; c.b1 = 1; c.b2 = 2; c.a1 = UnitVec3(Vec3(1, 2, 3)); c.height = 0.2; c.p2 = Vec3(.3, .1, -.2); cm.cons.push_back(c);
+    c.a1 = UnitVec3(Vec3(-1, 1, 0.5)); c.p2 = Vec3(-.2, .4, .1); c.height = -0.1; cm.cons.push_back(c);
+    Plan pl; pl.seed = 3; pl.gravity = true; pl.fMag = 1; pl.FMag = 1;
     if (ctx.wantDesc) cm.describe(ctx.desc);
     judge(ctx, cm, pl, false);
 }
 
 pbt::Config config() {
     pbt::Config c; c.prop = "C08"; c.K = consgen::K; c.minUnits = 2;
-    c.quick = {800, 4000, 20, 30}; c.thorough = {6000, 40000, 24, 240};
+    c.quick = {1000, 6000, 20, 30}; c.thorough = {6000, 40000, 24, 240};
     c.rule = "rapidcheck tape -> body units (mbgen: 1..6 bodies, 18 mobilizer types) and constraint units (consgen: 1..5 constraints of the 19 built-in types, each disabled with probability 1/4, the status reached through setDisabledByDefault or through enable()/disable() on the State) + a redundancy class by construction (none / duplicated constraint / Weld+Ball on one pair / constraint between two bodies welded together), parameters random or fitted to the state, state optionally projected (1e-9), applied mobility forces and body wrenches (log-uniform magnitudes) and optional gravity. Non-trivial: >= 2 enabled constraints of different holonomic class or a redundant consistent set, and at least one disabled constraint; distinct by tape hash.";
     c.assumptions = {"Kane reference: refdyn.h M_ref and 5-point differences (h=1e-3) of reported body velocities; tolerance 1e-7 x force scale x (1+|u|^2)",
                      "consistency of a constraint set is decided by my own eigen-analysis of G*M_ref^-1*G' (Cholesky + Jacobi): eigenvalue ratios > 1e-8 count as independent, < 1e-13 as dependent, anything between makes the set 'ill-conditioned' (only Newton's law is demanded); the library's own rank threshold is m*eps^(3/4) ~ 1e-11",
                      "udoterr tolerance (1e-11 + 1e-14*cond(G M^-1 G')*kappa(M)) x scale"};
-    c.directed = {{"rod-from-gimbal-centre-to-body-station", "c08-null-constraint-multiplier-blowup", directedNull}};
-    c.requiredLabels = {"set:full-rank", "set:rank-deficient-consistent", "set:inconsistent", "set:null-G", "some-disabled", "mixed-classes", "redundant:duplicated-constraint", "redundant:weld+ball-same-pair", "redundant:relatively-immobile-pair",
+    c.directed = {{"rod-from-pin-centre-to-body-station", "c08-null-constraint-multiplier-blowup", directedNull},
+                  {"two-pointinplane-between-welded-bodies", "c08-qtz-rank0-multipliers-uninitialized", directedZero}};
+    c.requiredLabels = {"set:full-rank", "set:rank-deficient-consistent", "set:inconsistent", "set:null-G", "set:zero-GMInvGt", "some-disabled", "mixed-classes", "redundant:duplicated-constraint", "redundant:weld+ball-same-pair", "redundant:relatively-immobile-pair",
                         "power:workless-on-velocity-manifold", "demanded:udoterr=0/full-rank", "demanded:udoterr=0/redundant-consistent"};
     return c;
 }
 } // namespace
 
+#ifdef PBT_FUZZ
 PBT_MAIN(config(), property)
+#else
+// glibc serves small blocks from its per-thread cache without applying M_PERTURB, which would leave the heap poisoning above ineffective
+// for exactly the small result vectors it is meant for: restart once with the cache switched off (same pid, same arguments).
+int main(int argc, char** argv) {
+    const char* t = getenv("GLIBC_TUNABLES");
+    if (!t || !strstr(t, "tcache_count=0")) { setenv("GLIBC_TUNABLES", "glibc.malloc.tcache_count=0", 1); execv("/proc/self/exe", argv); }
+    return pbt::run(argc, argv, config(), property);
+}
+#endif
